@@ -238,6 +238,19 @@ def lazy_wrappers():
             lambda x: A.N("LazyArray", count=A.C(2), sub=x), lambda x: A.N("LazyArray", count=A.T("_params", "k"), sub=A.Prefixed(A.Alias("Byte"), x)),
             lambda x: A.N("LazyStruct", subs=[A.Renamed("a", x), A.Renamed("b", A.Prefixed(A.Alias("Byte"), A.GreedyBytes)), A.Renamed("c", A.Alias("Byte"))])]
 
+def fixed_programs():
+    """(program, keywords, values) always included by the round-trip checks: shapes that need a particular position or particular values"""
+    nib_rest = A.Bitwise(A.Struct(A.Renamed("a", A.Alias("Nibble")), A.Renamed("rest", A.GreedyBytes)))
+    b3_range = A.Bitwise(A.Struct(A.Renamed("a", A.BitsInteger(3)), A.Renamed("rest", A.GreedyRange(A.BitsInteger(5)))))
+    v1 = [{"a": 10, "rest": b"\x01\x00\x01\x01"}, {"a": 0, "rest": b"\x01\x01\x01\x01" + b"\x00\x01" * 4}, {"a": 15, "rest": b""}]
+    v2 = [{"a": 5, "rest": [17]}, {"a": 0, "rest": [1, 2, 3, 4, 5]}, {"a": 7, "rest": []}]
+    out = [(nib_rest, {}, v1), (b3_range, {}, v2),
+           (A.Prefixed(A.Alias("Byte"), nib_rest), {}, v1),
+           (A.Struct(A.Renamed("h", A.Bytes(3)), A.Renamed("x", A.Prefixed(A.Alias("Byte"), b3_range)), A.Renamed("t", A.Alias("Byte"))), {},
+            [{"h": b"abc", "x": v, "t": 9} for v in v2]),
+           (A.Struct(A.Renamed("n", A.Alias("Byte")), A.Renamed("x", A.FixedSized(3, nib_rest))), {}, [{"n": 1, "x": {"a": 3, "rest": bytes([1, 0] * 10)}}])]
+    return out
+
 def systematic(rng, frac=1.0, extra=()):
     """Struct(h: Bytes(hlen), x: W(L), t: Byte) for every wrapper W, leaf L and header length -- so that every class is met
     behind an odd-sized neighbour and in front of another member"""
